@@ -94,7 +94,7 @@ func l(v ...any) []any { return append([]any{}, v...) }
 func singles() []opnd {
 	// 2^53 and 2^53+1: two integers next to each other that one float64 stands for
 	vs := []any{nil, false, true, int64(-1), int64(0), int64(1), int64(2), int64(9007199254740992), int64(9007199254740993), -1.5, 0.0, 1.0, 2.5,
-		"", "a", "b", "1", l(), l(int64(1), "a"), m(), m("a", int64(1)), scriptref.Nothing{},
+		"", "a", "b", "1", "ab", "a|b", l(), l(int64(1), "a"), // "a|b" as a pattern: an alternation has to be matched as a whole m(), m("a", int64(1)), scriptref.Nothing{},
 		scriptref.Regex("a"), l(l(int64(1), "a"), 2.5, "b")}
 	out := make([]opnd, len(vs))
 	for i, v := range vs {
